@@ -1,6 +1,7 @@
 """C13 - Response headers cannot be split or smuggled."""
 from __future__ import annotations
 
+import os
 import re
 from urllib.parse import unquote
 
@@ -17,26 +18,92 @@ LEVEL = "exploration"
 RULES = {
     "atheris": "thorough tier: Atheris/libFuzzer coverage-guided campaign; bytes are decoded into the same structured case and judged by the same oracle inside the target (half of the jobs start from an empty corpus, half from two small valid inputs)",
     "history": "Hypothesis: histories of up to 12 mutations (item assignment, append, update with mapping / pairs / keywords / another "
-    "header mapping, setdefault, delete) on the header mapping of a response with keys/values over an alphabet weighted to CR, LF, "
-    "NUL, ';', ',', '=', quotes, DEL, U+0085, non-ASCII; then set_cookie/delete_cookie with hostile names/values and the response is "
-    "sent through the WSGI and the ASGI gateway; non-trivial = the history contains at least one forbidden character",
+    "header mapping (read-only or mutable) / a keys()-object that is no Mapping / a one-shot iterator / positional + keywords, setdefault, "
+    "delete) on the header mapping of a response (empty, text, HTML, JSON, redirect, stream) with keys/values over an alphabet weighted to CR, LF, "
+    "NUL, ';', ',', '=', quotes, DEL, U+0085, non-ASCII, compatibility forms of ';' - the names the response fills in itself (Location, "
+    "Content-Type, Content-Length, Set-Cookie) included; then set_cookie/delete_cookie with hostile names/values and benign attribute "
+    "arguments and the response is sent through the WSGI and the ASGI gateway; non-trivial = the history contains at least one forbidden character",
     "redirect": "Hypothesis: redirect targets (str and URL objects) over the same alphabet plus spaces, non-ASCII and percent "
-    "sequences; non-trivial = the target contains CR/LF/NUL/space/non-ASCII",
+    "sequences, with and without a (clean) headers= argument; non-trivial = the target contains CR/LF/NUL/space/non-ASCII",
     "exh": "exhaustive: each of the 7 mutation paths x key/value position x every code point 0..255 placed inside the key or the value",
+    "paths": "enumerated: every argument form of update() (dict, pairs, keywords, Headers, MutableHeaders, keys()-object, iterator, generator, "
+    "positional+keywords with the offender on either side) and item assignment / append / setdefault x prior state of the key (absent, "
+    "present, present with an EMPTY value, other letter case) x 18 hostile strings (lone CR / LF / NUL, CRLF + injected line, obsolete "
+    "line folding CRLF SP / CRLF HT, leading, trailing) in the key or in the value",
+    "special": "enumerated: the header names a response fills in itself or that servers treat specially (Location, Content-Type, "
+    "Content-Length, Set-Cookie, Content-Range, ETag, ... 25 names, both letter cases) x 9 mutation paths x clean / hostile values x "
+    "response kind (empty, text, redirect, file)",
+    "long": "enumerated: keys / values / cookie texts of 257 .. 65537 characters with CR, LF or NUL at the start, second, middle and last position",
+    "kinds": "enumerated: the other response classes (HTML, stream, server-sent events, file answered with 200 / HEAD / 206 single / 206 "
+    "multipart / 416 / 400 / If-Range mismatch) x hostile header mutations and hostile cookies, both interfaces",
+    "cookiex": "enumerated: cookie names that look like attributes or carry the __Secure- / __Host- prefixes, 40 hostile texts (';', CR/LF, "
+    "quotes around a terminator, backslashes, compatibility forms of ';' ',' '=' such as U+FF1B U+FE54 U+037E, line separators) as name, as "
+    "value and as both x 9 combinations of the other set_cookie arguments x set / delete; every code point 0..255 inside a NAME that starts and ends with a double quote",
+    "redirect_exh": "enumerated: 7 URL contexts (bare, path, query, fragment, absolute, next to percent sequences, authority) x every code "
+    "point 0..0x17F and selected ones above x str / URL object, hostile targets additionally with a clean headers= argument, 60 fixed hostile targets and long targets",
 }
 ASSUMPTIONS = [
     "constructor-supplied headers are outside the statement (it speaks of mutating operations)",
     "for a multi-pair update the pairs before the offending one may have been applied",
     "cookie text with code points above U+00FF may be rejected with an error instead of being escaped (then no header is emitted)",
+    "cookie text up to U+00FF must be accepted by set_cookie / delete_cookie ('cookie and redirect text is escaped instead' of being rejected)",
     "a redirect target is compared after one percent-decoding (targets may already contain percent sequences)",
+    "header names that the response class fills in itself at send time (Content-Length, Content-Type, Content-Range, Location) may be emitted with the response's own value; "
+    "mutations of them through the mapping are judged like any other (rejected when forbidden, never emitted with CR/LF/NUL)",
+    "the other set_cookie arguments (path, domain, ...) take fixed benign values: the statement quantifies over name and value only",
 ]
 
 FORBIDDEN = ("\r", "\n", "\x00")
-AUTO = {"content-length", "content-type", "location"}
+AUTO = {"content-length", "content-type", "location", "content-range"}
+UPDATE_OPS = ("update_map", "update_pairs", "update_kw", "update_headers", "update_mh", "update_keys", "update_iter", "update_gen")
 
 
 def bad(s: str) -> bool:
     return any(c in s for c in FORBIDDEN)
+
+
+class _KeysOnly:
+    """Has keys() and __getitem__ but is no Mapping - what email.message.Message / http.client.HTTPMessage
+    (the headers of an upstream answer) look like to update()."""
+
+    def __init__(self, pairs):
+        self._d = dict(pairs)
+
+    def keys(self):
+        return list(self._d)
+
+    def __getitem__(self, key):
+        return self._d[key]
+
+
+def _merged(pairs):
+    """What a header mapping built from these pairs holds: lower-cased names, repeated names joined with ', '."""
+    out = {}
+    for k, v in pairs:
+        k = k.lower()
+        out[k] = f"{out[k]}, {v}" if k in out else v
+    return list(out.items())
+
+
+_FILE = {}
+
+
+def _file_path():
+    pid = os.getpid()
+    if _FILE.get("pid") != pid:
+        from harness import tmpfiles
+
+        d = tmpfiles.workdir("verif_c13_")
+        p = os.path.join(d, "data.txt")
+        with open(p, "wb") as fh:
+            fh.write(b"abcdefghijklmnopqrstuvwxyz")
+        _FILE.update(pid=pid, path=p)
+    return _FILE["path"]
+
+
+async def _achunks(chunks):
+    for c in chunks:
+        yield c
 
 
 def make_response(kind, side):
@@ -45,25 +112,52 @@ def make_response(kind, side):
         return mod.Response(200)
     if kind == "plain":
         return mod.PlainTextResponse("hello")
+    if kind == "html":
+        return mod.HTMLResponse("<p>hello</p>")
     if kind == "json":
         return mod.JSONResponse({"a": 1})
     if kind == "redirect":
         return mod.RedirectResponse("/next")
+    if kind == "stream":
+        chunks = [b"ab", b"cd"]
+        return mod.StreamResponse(iter(chunks) if side == "wsgi" else _achunks(chunks))
+    if kind == "sse":
+        events = [{"data": "one"}, {"event": "e", "data": "two"}]
+        return mod.SendEventResponse(iter(events) if side == "wsgi" else _achunks(events))
+    if kind == "file":
+        return mod.FileResponse(_file_path())
     raise core.HarnessError(kind)
+
+
+def op_pairs(op):
+    """The (key, value) pairs an operation hands to the mapping, in the order of the call."""
+    name = op[0]
+    if name in ("set", "append", "setdefault"):
+        return [(op[1], op[2])]
+    if name in UPDATE_OPS:
+        return [tuple(p) for p in op[1]]
+    if name == "update_pos_kw":
+        return [tuple(p) for p in op[1]] + [tuple(p) for p in op[2]]
+    if name == "del":
+        return []
+    raise core.HarnessError(name)
+
+
+def op_texts(op):
+    if op[0] == "del":
+        return [op[1]]
+    return [s for p in op_pairs(op) for s in p]
 
 
 def apply_history(r: Result, headers, ops, side):
     """Apply ops to the real mapping and to the model dict."""
+    from baize.datastructures import Headers, MutableHeaders
+
     model = dict(headers.items())
     for i, op in enumerate(ops):
         name = op[0]
-        before = dict(headers.items())
-        where = f"{side} step {i} {op!r}"
-        pairs = []
-        if name in ("set", "append", "setdefault"):
-            pairs = [(op[1], op[2])]
-        elif name in ("update_map", "update_pairs", "update_kw", "update_headers"):
-            pairs = [tuple(p) for p in op[1]]
+        where = f"{side} step {i} {op!r}"[:700]
+        pairs = op_pairs(op)
         try:
             if name == "set":
                 headers[op[1]] = op[2]
@@ -78,9 +172,18 @@ def apply_history(r: Result, headers, ops, side):
             elif name == "update_kw":
                 headers.update(**dict(pairs))
             elif name == "update_headers":
-                from baize.datastructures import Headers
-
                 headers.update(Headers(list(pairs)))
+            elif name == "update_mh":
+                # e.g. the header mapping of another response; its content came through the constructor
+                headers.update(MutableHeaders(list(pairs)))
+            elif name == "update_keys":
+                headers.update(_KeysOnly(pairs))
+            elif name == "update_iter":
+                headers.update(iter(list(pairs)))
+            elif name == "update_gen":
+                headers.update((k, v) for k, v in list(pairs))
+            elif name == "update_pos_kw":
+                headers.update(dict(tuple(p) for p in op[1]), **dict(tuple(p) for p in op[2]))
             elif name == "del":
                 try:
                     del headers[op[1]]
@@ -97,39 +200,33 @@ def apply_history(r: Result, headers, ops, side):
         # the mapping must never hold a forbidden character, whatever happened
         for k, v in after.items():
             if bad(k) or bad(v):
-                r.fail(f"C13:stored-forbidden:{name}", f"{where}: mapping now holds {k!r}: {v!r}")
+                r.fail(f"C13:stored-forbidden:{name}", f"{where}: mapping now holds {k[:200]!r}: {v[:200]!r}")
         if name == "del":
             model.pop(op[1].lower(), None)
             if after != model:
                 r.fail("C13:model:del", f"{where}: mapping {after!r}, model {model!r}")
             continue
-        if name == "update_kw":
-            offenders = [p for p in pairs if bad(p[0]) or bad(p[1])]
-        else:
-            offenders = [p for p in pairs if bad(p[0]) or bad(p[1])]
         # which pairs are effective
         if name == "setdefault":
             effective = [] if pairs[0][0].lower() in model else pairs
-            offenders = [p for p in effective if bad(p[0]) or bad(p[1])]
         elif name == "append":
             k, v = pairs[0]
             if not bad(k) and k.lower() in model:
                 effective = [(k, f"{model[k.lower()]}, {v}")]
             else:
                 effective = pairs
-        elif name in ("update_map", "update_kw"):
+        elif name in ("update_map", "update_kw", "update_keys"):
             effective = list(dict(pairs).items())
-            offenders = [p for p in effective if bad(p[0]) or bad(p[1])]
-        elif name == "update_headers":
-            from baize.datastructures import Headers
-
-            effective = list(Headers(list(pairs)).items())
-            offenders = [p for p in effective if bad(p[0]) or bad(p[1])]
+        elif name in ("update_headers", "update_mh"):
+            effective = _merged(pairs)
+        elif name == "update_pos_kw":
+            effective = list(dict(tuple(p) for p in op[1]).items()) + list(dict(tuple(p) for p in op[2]).items())
         else:
             effective = pairs
+        offenders = [p for p in effective if bad(p[0]) or bad(p[1])]
         if offenders:
             if raised is None:
-                r.fail(f"C13:not-rejected:{name}", f"{where}: forbidden character accepted without an error; mapping {after!r}")
+                r.fail(f"C13:not-rejected:{name}", f"{where}: forbidden character accepted without an error; mapping {after!r}"[:1500])
             # pairs before the first offender may have been applied; nothing from the offender on
             first = next(i for i, p in enumerate(effective) if bad(p[0]) or bad(p[1]))
             allowed = dict(model)
@@ -138,7 +235,7 @@ def apply_history(r: Result, headers, ops, side):
                 allowed[p[0].lower()] = p[1]
                 ok = ok or after == allowed
             if not ok:
-                r.fail(f"C13:partial-update:{name}", f"{where}: mapping {after!r} is neither the old state nor a prefix application")
+                r.fail(f"C13:partial-update:{name}", f"{where}: mapping {after!r} is neither the old state nor a prefix application"[:1500])
             model.clear()
             model.update(after)
         else:
@@ -150,15 +247,15 @@ def apply_history(r: Result, headers, ops, side):
             for k, v in effective:
                 model[k.lower()] = v
             if after != model:
-                r.fail(f"C13:model:{name}", f"{where}: mapping {after!r}, model {model!r}")
+                r.fail(f"C13:model:{name}", f"{where}: mapping {after!r}, model {model!r}"[:1500])
                 model.clear()
                 model.update(after)
-        _ = before
     return model
 
 
-def emitted(side, resp):
-    rq = gw.areq()
+def emitted(side, resp, request=None):
+    request = request or {}
+    rq = gw.areq(method=request.get("method", "GET"), headers=request.get("headers", ()))
     if side == "wsgi":
         run = gw.call_wsgi(resp, rq)
         return run, [(k, v) for k, v in run.headers]
@@ -166,45 +263,89 @@ def emitted(side, resp):
     return run, [(k.decode("latin-1"), v.decode("latin-1")) for k, v in run.headers]
 
 
+_COOKIE_ARGS = ("max_age", "expires", "path", "domain", "secure", "httponly", "samesite")
+_DELETE_ARGS = ("path", "domain", "secure", "httponly", "samesite")
+
+
+def cookie_call(resp, c):
+    attrs = c.get("attrs") or {}
+    if c.get("delete"):
+        resp.delete_cookie(c["name"], **{k: attrs[k] for k in _DELETE_ARGS if k in attrs})
+    else:
+        resp.set_cookie(c["name"], c["value"], **{k: attrs[k] for k in _COOKIE_ARGS if k in attrs})
+
+
+def implied_attributes(c):
+    """Attribute names implied by the arguments other than name and value (documented order)."""
+    attrs = c.get("attrs") or {}
+    delete = bool(c.get("delete"))
+    want = []
+    if delete or attrs.get("expires") is not None:
+        want.append("expires")
+    if delete or attrs.get("max_age", -1) > -1:
+        want.append("max-age")
+    if attrs.get("domain"):
+        want.append("domain")
+    if attrs.get("path", "/"):
+        want.append("path")
+    if attrs.get("httponly"):
+        want.append("httponly")
+    if attrs.get("secure") or attrs.get("samesite", "lax") in ("strict", "none"):
+        want.append("secure")
+    want.append("samesite")
+    return want
+
+
+def _wide(s: str) -> bool:
+    return any(ord(ch) > 255 for ch in s)
+
+
 def oracle(case) -> Result:
     r = Result()
     ops, cookies, kind = case["ops"], case["cookies"], case["response"]
-    texts = [x for op in ops for x in (op[1:] if op[0] in ("set", "append", "setdefault", "del") else [s for p in op[1] for s in p])]
+    request = case.get("request")
+    texts = [x for op in ops for x in op_texts(op)]
     texts += [c["name"] for c in cookies] + [c["value"] for c in cookies]
     r.nontrivial = any(bad(t) for t in texts)
-    wide = any(ord(ch) > 255 for t in texts for ch in t)
+    wide = any(_wide(t) for t in texts)
     r.label(f"resp={kind}", f"ops={min(len(ops), 6)}", f"cookies={len(cookies)}")
     if r.nontrivial:
         r.label("has-forbidden-char")
     if wide:
         r.label("wide-char")
+    if any(c.get("attrs") for c in cookies):
+        r.label("cookie-with-attributes")
     for side in ("wsgi", "asgi"):
         resp = make_response(kind, side)
         model = apply_history(r, resp.headers, ops, side)
         cookie_error = None
         for c in cookies:
             try:
-                if c.get("delete"):
-                    resp.delete_cookie(c["name"])
-                else:
-                    resp.set_cookie(c["name"], c["value"])
+                cookie_call(resp, c)
             except Exception as exc:  # noqa: BLE001
                 cookie_error = exc
-        run, hdrs = emitted(side, resp)
+                if not _wide(c["name"] + c["value"]):
+                    # the statement: "cookie and redirect text is escaped instead" (of being rejected)
+                    r.fail(f"C13:{side}:cookie-rejected", f"cookie {c!r}: raised {exc!r} instead of escaping"[:1500])
+        run, hdrs = emitted(side, resp, request)
         if run.exc is not None:
             if wide and isinstance(run.exc, UnicodeError):
                 r.label("wide-char-rejected")
                 continue
-            r.fail(f"C13:{side}:emission-raised:{type(run.exc).__name__}", f"ops {ops!r} cookies {cookies!r}: {run.exc!r}")
+            r.fail(f"C13:{side}:emission-raised:{type(run.exc).__name__}", f"ops {ops!r} cookies {cookies!r}: {run.exc!r}"[:1500])
             continue
         for k, v in hdrs:
             if bad(k) or bad(v):
-                r.fail(f"C13:{side}:emitted-forbidden", f"emitted header {k!r}: {v!r} after ops {ops!r} cookies {cookies!r}")
+                r.fail(f"C13:{side}:emitted-forbidden", f"emitted header {k[:300]!r}: {v[:300]!r} after ops {ops!r} cookies {cookies!r}"[:1800])
         got = {}
         cookie_lines = []
+        mapping_cookie = model.get("set-cookie")  # a Set-Cookie line stored through the mapping is not a cookie of set_cookie()
         for k, v in hdrs:
             if k.lower() == "set-cookie":
-                cookie_lines.append(v)
+                if mapping_cookie is not None and v == mapping_cookie and "set-cookie" not in got:
+                    got["set-cookie"] = v
+                else:
+                    cookie_lines.append(v)
             else:
                 got[k.lower()] = v
         if not wide:
@@ -212,14 +353,14 @@ def oracle(case) -> Result:
                 if k in AUTO:
                     continue
                 if got.get(k) != v:
-                    r.fail(f"C13:{side}:emitted-differs-from-mapping", f"header {k!r}: emitted {got.get(k)!r}, mapping {v!r}; ops {ops!r}")
+                    r.fail(f"C13:{side}:emitted-differs-from-mapping", f"header {k!r}: emitted {got.get(k)!r}, mapping {v!r}; ops {ops!r}"[:1500])
         if cookie_error is None and len(cookie_lines) != len(cookies):
-            r.fail(f"C13:{side}:cookie-line-count", f"{len(cookies)} cookies set, {len(cookie_lines)} set-cookie lines {cookie_lines!r}")
+            r.fail(f"C13:{side}:cookie-line-count", f"{len(cookies)} cookies set, {len(cookie_lines)} set-cookie lines {cookie_lines!r}"[:1500])
             continue
         if cookie_error is not None:
             continue
         for c, line in zip(cookies, cookie_lines):
-            ctx = f"{side} cookie {c!r} -> {line!r}"
+            ctx = f"{side} cookie {c!r} -> {line!r}"[:1500]
             if not wide:
                 try:
                     line.encode("ascii")
@@ -227,7 +368,7 @@ def oracle(case) -> Result:
                     r.fail(f"C13:{side}:cookie-not-ascii", ctx)
             parts = line.split(";")
             attrs = [p.strip().partition("=")[0].lower() for p in parts[1:]]
-            want = (["expires", "max-age"] if c.get("delete") else []) + ["path", "samesite"]
+            want = implied_attributes(c)
             if attrs != want:
                 r.fail(f"C13:{side}:cookie-attributes", f"{ctx}: attributes {attrs!r}, implied by the arguments {want!r}")
                 continue
@@ -244,52 +385,81 @@ def oracle(case) -> Result:
 def oracle_redirect(case) -> Result:
     r = Result()
     target, as_url = case["target"], case["as_url"]
+    ctor_headers = case.get("ctor_headers")
     r.nontrivial = bad(target) or " " in target or any(ord(c) > 127 for c in target)
-    r.label("url-object" if as_url else "str")
+    r.label("url-of-request" if as_url == "request" else "url-object" if as_url else "str")
+    if ctor_headers:
+        r.label("with-headers-argument")
     for side in ("wsgi", "asgi"):
         mod = bwsgi if side == "wsgi" else basgi
         try:
-            arg = URL(target) if as_url else target
+            if as_url == "request":
+                # the URL of a request (percent-decoded path) handed back as the target, e.g. "same page plus a slash"
+                scope = {"type": "http", "scheme": "http", "server": ("example.com", 80), "root_path": "", "path": target, "query_string": b"", "headers": []}
+                arg = URL(scope=scope)
+            else:
+                arg = URL(target) if as_url else target
             expected = str(arg)
         except ValueError:
             r.label("url-ctor-rejected")
             return r
         try:
-            resp = mod.RedirectResponse(arg, case.get("status", 307))
+            if ctor_headers is None:
+                resp = mod.RedirectResponse(arg, case.get("status", 307))
+            else:
+                resp = mod.RedirectResponse(arg, case.get("status", 307), dict(ctor_headers))
         except ValueError as exc:
             # the statement: "cookie and redirect text is escaped instead" (of being rejected)
-            r.fail(f"C13:{side}:redirect-rejected", f"target {target!r}: RedirectResponse raised {exc!r} instead of escaping")
+            r.fail(f"C13:{side}:redirect-rejected", f"target {target[:300]!r}: RedirectResponse raised {exc!r} instead of escaping")
             continue
         run, hdrs = emitted(side, resp)
         if run.exc is not None:
-            r.fail(f"C13:{side}:redirect-raised:{type(run.exc).__name__}", f"target {target!r}: {run.exc!r}")
+            r.fail(f"C13:{side}:redirect-raised:{type(run.exc).__name__}", f"target {target[:300]!r}: {run.exc!r}")
             continue
         locs = [v for k, v in hdrs if k.lower() == "location"]
         if len(locs) != 1:
-            r.fail(f"C13:{side}:location-count", f"target {target!r}: headers {hdrs!r}")
+            r.fail(f"C13:{side}:location-count", f"target {target[:300]!r}: headers {hdrs!r}"[:1500])
             continue
         loc = locs[0]
         for k, v in hdrs:
             if bad(k) or bad(v):
-                r.fail(f"C13:{side}:redirect-emitted-forbidden", f"target {target!r}: header {k!r}: {v!r}")
+                r.fail(f"C13:{side}:redirect-emitted-forbidden", f"target {target[:300]!r}: header {k!r}: {v[:600]!r}")
         if not loc.isascii() or re.search(r"[\x00-\x20\x7f]", loc):
-            r.fail(f"C13:{side}:location-not-clean", f"target {target!r}: Location {loc!r} is not ASCII without blanks/controls")
+            r.fail(f"C13:{side}:location-not-clean", f"target {target[:300]!r}: Location {loc[:600]!r} is not ASCII without blanks/controls")
         if unquote(loc) != expected and unquote(loc) != unquote(expected):
-            r.fail(f"C13:{side}:location-decodes-differently", f"target {expected!r}: Location {loc!r} decodes to {unquote(loc)!r}")
+            r.fail(f"C13:{side}:location-decodes-differently", f"target {expected[:300]!r}: Location {loc[:600]!r} decodes to {unquote(loc)[:300]!r}")
     return r
 
 
-SUBS = {"history": oracle, "redirect": oracle_redirect, "exh": oracle}
+SUBS = {
+    "history": oracle,
+    "redirect": oracle_redirect,
+    "exh": oracle,
+    "paths": oracle,
+    "special": oracle,
+    "long": oracle,
+    "kinds": oracle,
+    "cookiex": oracle,
+    "redirect_exh": oracle_redirect,
+}
+
+SPECIAL_KEYS = ["location", "Location", "content-type", "Content-Type", "content-length", "Content-Length", "set-cookie", "Set-Cookie"]
+
+# compatibility / canonically equivalent forms of ';' ',' '=' '"' '\' and the Unicode line separators
+COMPAT = ["\uff1b", "\ufe54", "\u037e", "\uff0c", "\uff1d", "\uff02", "\uff3c", "\u2028", "\u2029", "\ufe14"]
 
 _chars = st.sampled_from(
-    ["\r", "\n", "\x00", "\r\n", ";", ",", "=", '"', "\\", " ", "\t", "\x7f", "\x85", " ", "é", "中", "a", "b", "X", "-", "1", ":", "Set-Cookie", "x", "y"]
+    ["\r", "\n", "\x00", "\r\n", ";", ",", "=", '"', "\\", " ", "\t", "\x7f", "\x85", "\u2028", "é", "中", "a", "b", "X", "-", "1", ":", "Set-Cookie", "x", "y"]
 )
 _text = st.one_of(st.lists(_chars, min_size=0, max_size=5).map("".join), st.sampled_from(["x-a", "X-A", "x-b", "vary", "cache-control", "v", "1", "a, b"]))
-_key = st.one_of(st.sampled_from(["x-a", "X-A", "x-b", "X-C", "vary", "x-a\r\n", "x\nb", "x\x00"]), _text.filter(lambda s: s != "")).filter(
+_plain_key = st.one_of(st.sampled_from(["x-a", "X-A", "x-b", "X-C", "vary", "x-a\r\n", "x\nb", "x\x00"]), _text.filter(lambda s: s != "")).filter(
     lambda s: s.lower() not in ("set-cookie", "content-length", "content-type", "location")
 )
+# mostly ordinary names; now and then one of the names the response fills in itself
+_key = st.one_of(_plain_key, _plain_key, _plain_key, _plain_key, _plain_key, _plain_key, _plain_key, st.sampled_from(SPECIAL_KEYS))
 _pair = st.tuples(_key, _text).map(list)
 _kwkey = st.sampled_from(["xa", "XA", "xb", "a\nb", "a\rb", "a\x00b"])
+_kwpair = st.tuples(_kwkey, _text).map(list)
 _op = st.one_of(
     st.tuples(st.just("set"), _key, _text),
     st.tuples(st.just("append"), _key, _text),
@@ -298,13 +468,28 @@ _op = st.one_of(
     st.tuples(st.just("update_map"), st.lists(_pair, max_size=3)),
     st.tuples(st.just("update_pairs"), st.lists(_pair, max_size=3)),
     st.tuples(st.just("update_headers"), st.lists(_pair, max_size=3)),
-    st.tuples(st.just("update_kw"), st.lists(st.tuples(_kwkey, _text).map(list), max_size=2)),
+    st.tuples(st.just("update_kw"), st.lists(_kwpair, max_size=2)),
+    st.tuples(st.sampled_from(["update_mh", "update_keys", "update_iter", "update_gen"]), st.lists(_pair, max_size=3)),
+    st.tuples(st.just("update_pos_kw"), st.lists(_pair, max_size=2), st.lists(_kwpair, max_size=2)),
 ).map(list)
+
+ATTR_SETS = [
+    {"max_age": 3600},
+    {"expires": 3600},
+    {"domain": "example.com", "path": "/app"},
+    {"secure": True, "httponly": True},
+    {"samesite": "strict"},
+    {"samesite": "none"},
+    {"path": ""},
+    {"max_age": 0, "expires": 0, "domain": "example.com", "path": "/app", "secure": True, "httponly": True, "samesite": "strict"},
+]
+_cookie_text = st.one_of(_text, st.tuples(_text, st.sampled_from(COMPAT), _text).map("".join))
 _cookie = st.fixed_dictionaries(
     {
-        "name": st.one_of(st.sampled_from(["sid", "a", "k.1", "a;b", "a=b", "a\r\nSet-Cookie: x", "a b", "é", ""]), _text),
-        "value": st.one_of(_text, st.sampled_from(["v", "; Secure", "x; Domain=evil.example", "a\r\nSet-Cookie: evil=1", 'q"; HttpOnly', "a,b", "\x00"])),
+        "name": st.one_of(st.sampled_from(["sid", "a", "k.1", "a;b", "a=b", "a\r\nSet-Cookie: x", "a b", "é", "", "__Secure-sid", "__Host-sid", "Secure", '"a;b"']), _cookie_text),
+        "value": st.one_of(_cookie_text, st.sampled_from(["v", "; Secure", "x; Domain=evil.example", "a\r\nSet-Cookie: evil=1", 'q"; HttpOnly', "a,b", "\x00"])),
         "delete": st.sampled_from([False, False, False, True]),
+        "attrs": st.one_of(st.none(), st.none(), st.sampled_from(ATTR_SETS)),
     }
 )
 
@@ -312,7 +497,7 @@ _cookie = st.fixed_dictionaries(
 def history_case():
     return st.fixed_dictionaries(
         {
-            "response": st.sampled_from(["empty", "plain", "json", "redirect"]),
+            "response": st.sampled_from(["empty", "plain", "json", "redirect", "html", "stream"]),
             "ops": st.lists(_op, max_size=12),
             "cookies": st.lists(_cookie, max_size=3),
         }
@@ -321,13 +506,14 @@ def history_case():
 
 def redirect_case():
     frag = st.sampled_from(
-        ["/", "/a", "http://example.com/", "?q=1", "#f", " ", "\r", "\n", "\r\nSet-Cookie: x=1", "\x00", "é", "中文", "%0d%0a", "%41", "%", "a b", "\t", "\x7f", " ", "//evil", "&", "=", ";", "'", '"', "<", ">", "\\"]
+        ["/", "/a", "http://example.com/", "?q=1", "#f", " ", "\r", "\n", "\r\nSet-Cookie: x=1", "\x00", "é", "中文", "%0d%0a", "%41", "%", "a b", "\t", "\x7f", "\u2028", "//evil", "&", "=", ";", "'", '"', "<", ">", "\\"]
     )
     return st.fixed_dictionaries(
         {
             "target": st.lists(frag, min_size=1, max_size=6).map("".join),
-            "as_url": st.booleans(),
+            "as_url": st.sampled_from([False, False, False, True, True, True, "request"]),
             "status": st.sampled_from([301, 302, 303, 307, 308]),
+            "ctor_headers": st.sampled_from([None, None, {}, {"x-a": "1"}, {"Cache-Control": "no-store", "X-B": "a, b"}]),
         }
     )
 
@@ -364,6 +550,246 @@ def exh_cases():
                     yield {"response": "empty", "ops": [], "cookies": [{"name": k, "value": "v", "delete": True}]}
 
 
+# clean text (no CR / LF / NUL) whose code points END in the bytes 0A / 0D / 00: an encoder that truncates instead of
+# refusing would turn them into line breaks on the byte interface
+LOWBYTE = ["a\u010ab", "a\u010db", "a\u0100b", "\u560a", "a\u0a0d\u0a0ab", "\u010d\u010aSet-Cookie: x=1"]
+
+HOSTILE = [
+    "\r",
+    "\n",
+    "\x00",
+    "a\rb",
+    "a\nb",
+    "a\x00b",
+    "a\r\nSet-Cookie: admin=1",
+    "a\r\n\r\n<html>",
+    "a\r\n b",  # obsolete line folding: still a line break in the emitted line
+    "a\r\n\tb",
+    "\r\n folded",
+    "ab\n",
+    "ab\r\n",
+    "\nab",
+    # together with text outside ASCII / Latin-1 (a check or an escape that has a separate branch for such text)
+    "é\r\nX-Injected: 1",
+    "\x85\rb",
+    "中\nb",
+    "a\u2028\x00",
+]
+
+
+def _forms(k, v):
+    """Every way of handing the single pair (k, v) to the mapping."""
+    yield ["set", k, v]
+    yield ["append", k, v]
+    yield ["setdefault", k, v]
+    for name in ("update_map", "update_pairs", "update_headers", "update_mh", "update_keys", "update_iter", "update_gen", "update_kw"):
+        yield [name, [[k, v]]]
+        yield [name, [["x-ok", "1"], [k, v]]]
+    yield ["update_pos_kw", [[k, v]], [["xkw", "1"]]]
+    yield ["update_pos_kw", [["x-ok", "1"]], [[k, v]]]
+    yield ["update_pos_kw", [[k, v]], []]
+
+
+def paths_cases():
+    priors = {
+        "absent": [],
+        "present": [["set", "x-t", "old"]],
+        "present-empty": [["set", "x-t", ""]],
+        "other-case": [["set", "X-T", "old"]],
+        "appended": [["set", "x-t", "a"], ["append", "X-T", "b"]],
+        "deleted": [["set", "x-t", "old"], ["del", "x-t"]],
+    }
+    for pname, prior in priors.items():
+        for h in HOSTILE:
+            for where in ("value", "key"):
+                k, v = ("x-t", h) if where == "value" else ("x-" + h, "v")
+                if where == "key" and pname not in ("absent", "present"):
+                    continue
+                for op in _forms(k, v):
+                    yield {"response": "empty", "ops": prior + [op], "cookies": []}
+        # the same forms with clean text: they must all be accepted and emitted
+        for k, v in [("x-t", "new"), ("X-T", ""), ("x-u", "a, b")] + [("x-t", t) for t in LOWBYTE] + [("x-" + LOWBYTE[0], "v"), ("x-" + LOWBYTE[1], "v")]:
+            for op in _forms(k, v):
+                yield {"response": "empty", "ops": prior + [op], "cookies": []}
+
+
+SPECIAL_NAMES = [
+    "location", "content-type", "content-length", "set-cookie", "content-range", "etag", "last-modified", "accept-ranges",
+    "content-disposition", "cache-control", "connection", "transfer-encoding", "host", "cookie", "www-authenticate", "vary",
+    "date", "server", "refresh", "link", "content-encoding", "x-accel-redirect", "status", "upgrade", "keep-alive",
+]  # fmt: skip
+
+
+def special_cases():
+    values = ["5", "5\r\nX-Injected: 1", "5\n", "\x005", "5\r", "text/plain\r\n\r\nbody"]
+    for kind in ("empty", "plain", "redirect", "file"):
+        for base in SPECIAL_NAMES:
+            if kind == "file" and base not in ("content-type", "content-length", "content-range", "etag", "last-modified", "accept-ranges", "content-disposition", "set-cookie"):
+                continue
+            for key in (base, base.title()):
+                for v in values:
+                    for op in (
+                        ["set", key, v],
+                        ["append", key, v],
+                        ["setdefault", key, v],
+                        ["update_map", [[key, v]]],
+                        ["update_pairs", [[key, v]]],
+                        ["update_kw", [[key, v]]],
+                        ["update_headers", [[key, v]]],
+                        ["update_mh", [[key, v]]],
+                        ["update_keys", [[key, v]]],
+                    ):
+                        yield {"response": kind, "ops": [op], "cookies": []}
+                        if kind in ("empty", "redirect") and key == base and op[0] in ("set", "append", "setdefault", "update_pairs", "update_mh"):
+                            # the name is present already (append joins with the old value)
+                            yield {"response": kind, "ops": [["set", base.upper(), "old"], op], "cookies": []}
+    # a Set-Cookie line stored through the mapping next to real cookies
+    for v in ("a=b", "a=b\r\nSet-Cookie: c=d"):
+        for op in (["set", "Set-Cookie", v], ["append", "set-cookie", v]):
+            yield {"response": "plain", "ops": [op], "cookies": [{"name": "sid", "value": "x;y", "delete": False}, {"name": "a", "value": "b", "delete": False}]}
+
+
+def long_cases(quick=True):
+    lengths = [257, 300, 1024, 8192, 65537] if quick else [257, 258, 300, 511, 1024, 4097, 8192, 16385, 65537, 200001]
+    for n in lengths:
+        for ch in FORBIDDEN:
+            spots = {"first": 0, "second": 1, "middle": n // 2, "last": n - 1}
+            for spot, i in spots.items():
+                text = "v" * i + ch + "w" * (n - i - 1)
+                for op in (["set", "x-t", text], ["append", "x-t", text], ["setdefault", "x-new", text], ["update_pairs", [["x-t", text]]], ["update_map", [["x-t", text]]], ["update_mh", [["x-t", text]]]):
+                    yield {"response": "empty", "ops": [["set", "x-t", "old"], op], "cookies": []}
+                if n <= 8192:
+                    for op in (["set", text, "v"], ["append", text, "v"], ["update_pairs", [[text, "v"]]]):
+                        yield {"response": "empty", "ops": [op], "cookies": []}
+                    yield {"response": "empty", "ops": [], "cookies": [{"name": "sid", "value": text, "delete": False}]}
+                    yield {"response": "empty", "ops": [], "cookies": [{"name": text, "value": "v", "delete": spot == "last"}]}
+        if n <= 8192:
+            # long text outside Latin-1: refused as a whole on the byte interface or sent, never folded
+            for text in ("\u4e2d" * n, "v" * (n - 1) + "\u4e2d", "\u0430" * n, ("\u4e2d\u6587 " * n)[:n]):
+                yield {"response": "empty", "ops": [["set", "x-t", text]], "cookies": []}
+                yield {"response": "empty", "ops": [["set", "x-t", "report"], ["append", "x-t", text]], "cookies": []}
+        # long clean texts must go through unchanged
+        yield {"response": "empty", "ops": [["set", "x-t", "v" * n], ["append", "x-t", "w" * n]], "cookies": [{"name": "sid", "value": "v" * min(n, 4000), "delete": False}]}
+        yield {"response": "empty", "ops": [], "cookies": [{"name": "sid", "value": "v" * 300 + ";" + "w" * min(n, 4000), "delete": False}]}
+
+
+def kinds_cases():
+    requests = {
+        "get": None,
+        "head": {"method": "HEAD"},
+        "range1": {"headers": [["Range", "bytes=2-5"]]},
+        "rangeN": {"headers": [["Range", "bytes=0-1,5-6"]]},
+        "r416": {"headers": [["Range", "bytes=99-"]]},
+        "r400": {"headers": [["Range", "lines=1-2"]]},
+        "ifrange": {"headers": [["Range", "bytes=2-5"], ["If-Range", '"nope"']]},
+        "head-range": {"method": "HEAD", "headers": [["Range", "bytes=0-1,5-6"]]},
+    }
+    scenarios = []
+    for op in (
+        ["set", "x-t", "a\r\nX-Injected: 1"],
+        ["append", "x-t", "a\nb"],
+        ["setdefault", "x-t", "a\x00b"],
+        ["update_pairs", [["x-ok", "1"], ["x\r\nb", "v"]]],
+        ["update_mh", [["x-t", "a\rb"]]],
+        ["set", "Content-Type", "text/plain\r\n\r\nbody"],
+        ["set", "x-t", "clean"],
+    ):
+        scenarios.append(([op], []))
+    for name, value in (("sid", "v"), ("a;b", "v"), ("sid", "x\r\nSet-Cookie: admin=1"), ("sid", "a; Secure"), ("sid", "a\x00b"), ('"a;b"', "v"), ("a\nb", "c,d"), ("sid", '"; HttpOnly; x="')):
+        scenarios.append(([], [{"name": name, "value": value, "delete": False}]))
+        scenarios.append(([["set", "x-t", "1"]], [{"name": "first", "value": "1", "delete": False}, {"name": name, "value": value, "delete": name != "sid"}]))
+    for kind in ("html", "stream", "sse", "file", "json", "redirect"):
+        for rname, request in requests.items():
+            if rname != "get" and kind != "file":
+                continue
+            for ops, cookies in scenarios:
+                case = {"response": kind, "ops": ops, "cookies": cookies}
+                if request:
+                    case["request"] = request
+                yield case
+
+
+COOKIE_HOSTILE = [
+    "a;b", "a; Secure", "; HttpOnly", "a;", ";", "a\r\nSet-Cookie: x=1", "a\nb", "a\rb", "a\x00b", "ab\n", "a,b", "a=b", "=", 'a"b', '"a;b"',
+    '"a\r\nb"', '"a\x00b"', '"; HttpOnly; x="', '";"', '"', '""', "a\\;b", "\\", 'a\\";b', "a\\073b", "a\x85b", "a\x0bb", "a\x0cb", "a\x1cb", "a\x7fb",
+    " a", "a ", "a b", "", "é", "a\xa0b", "中", "a\uff1bb", "a\ufe54 Secure", "a\u037eb", "\u037e", "a\uff0cb", "a\uff1db", "\uff02a;b\uff02", "a\uff3c;b",
+    "a\u2028b", "a\u2029b", "\ufe14", "a\uff1b Secure",
+] + LOWBYTE + ["é;b", "é\r\nSet-Cookie: x=1", "中; Secure", "中\nb", "\x85\x00", "a\u2028;b"]  # fmt: skip
+COOKIE_NAMES = ["__Secure-sid", "__Host-sid", "__secure-x", "__Host-", "Secure", "HttpOnly", "Path", "Domain", "Expires", "Max-Age", "SameSite", "Partitioned", "$Version", "$Path", "sid"]
+
+
+def cookiex_cases():
+    attr_sets = [None] + ATTR_SETS
+    for name in COOKIE_NAMES:
+        for value in ("v", "", "a b"):
+            for attrs in attr_sets:
+                for delete in (False, True):
+                    c = {"name": name, "value": value, "delete": delete}
+                    if attrs:
+                        c["attrs"] = attrs
+                    yield {"response": "empty", "ops": [], "cookies": [c]}
+    for h in COOKIE_HOSTILE:
+        for attrs in attr_sets:
+            for name, value in ((h, "v"), ("sid", h), (h, h)):
+                for delete in (False, True):
+                    if delete and name == "sid":
+                        continue
+                    c = {"name": name, "value": value, "delete": delete}
+                    if attrs:
+                        c["attrs"] = attrs
+                    yield {"response": "empty", "ops": [], "cookies": [c]}
+        # a hostile cookie between two ordinary ones: three lines, each with its own attributes
+        yield {
+            "response": "plain",
+            "ops": [],
+            "cookies": [{"name": "first", "value": "1", "delete": False}, {"name": h, "value": h, "delete": False, "attrs": ATTR_SETS[2]}, {"name": "last", "value": "2", "delete": True}],
+        }
+    # a NAME that already looks like a quoted string, with every code point inside
+    for cp in range(256):
+        for name in ('"a' + chr(cp) + 'b"', '"' + chr(cp) + '"'):
+            yield {"response": "empty", "ops": [], "cookies": [{"name": name, "value": "v", "delete": False}]}
+            yield {"response": "empty", "ops": [], "cookies": [{"name": name, "value": name, "delete": True}]}
+
+
+REDIRECT_HOSTILE = [
+    "/next\r\nSet-Cookie: admin=1", "/next\r\n\r\n<script>", "/a\n", "/a\r", "/a\r\n", "\n/a", "/a\x00", "\x00", "/a b", " /a", "/a ", "/a\tb", "/a\x7f",
+    "/a\x0bb", "/a\x1cb", "/a\x85b", "/a\xa0b", "/é", "/中文?q=中#中", "http://example.com/\r\nX: y", "http://exämple.com/ä", "//evil.example/\n", "/a?q=\r\nX: y",
+    "/a?q=a b&r=é", "/a#\r\nX: y", "/a# b", "/a#é", "%0d%0a\r\n", "/%41\n", "/%\n", "/%zz b", "%", "/a%20b c", "/a?next=http://x/ y", "/a;b\nc", "/\\\n",
+    '/"\n"', "/<\n>", "/{\n}", "/|\n", "/^\n", "/`\n", "/a\u2028b", "/a\u2029b", "/a\ufeffb", "/a\U0001f600b", "/a\uff1bb", "?\n", "#\n", "&\n=", "/a\n?b", "/a\n#b",
+    "/a?b\n#c", "javascript:alert(1)\n", "mailto:a@b\r\nBcc: c@d", "/a'\n", "/a(\n)", "/a[\n]", "/a~\n", "/a@\n",
+    "/é\r\nX: y", "/中\n", "/\x85\r", "/中 b", "/a\u2028\x00",
+]  # fmt: skip
+
+
+def redirect_exh_cases(quick=True):
+    contexts = [("", ""), ("/p", ""), ("/p?q=", "&r=1"), ("/p#", "x"), ("http://example.com/", "/z"), ("/%41", "%42"), ("//", "/p")]
+    cps = list(range(0x180)) + [0x37E, 0x2028, 0x2029, 0x3000, 0x4E2D, 0xFEFF, 0xFF1B, 0xFFFD, 0x1F600]
+    if not quick:
+        cps = list(range(0x800)) + list(range(0x800, 0x3100, 0x11)) + [c for c in range(0x3100, 0x11000, 0x101) if not 0xD800 <= c <= 0xDFFF] + [0x2028, 0x2029, 0xFEFF, 0xFF1B, 0x1F600, 0x10FFFF]
+    hdr = {"X-Trace": "1", "cache-control": "no-store"}
+    for cp in cps:
+        ch = chr(cp)
+        hostile = ch in "\r\n\x00 \t\x7f\x85é中" or cp in (0x2028, 0xFF1B)
+        for i, (pre, post) in enumerate(contexts):
+            for as_url in (False, True):
+                case = {"target": pre + ch + post, "as_url": as_url, "status": (301, 302, 303, 307, 308)[(cp + i) % 5]}
+                yield case
+                if hostile:
+                    yield dict(case, ctor_headers=hdr)
+                    if as_url:
+                        yield dict(case, as_url="request")
+    for t in REDIRECT_HOSTILE:
+        for as_url in (False, True, "request"):
+            for ctor_headers in (None, {}, hdr):
+                yield {"target": t, "as_url": as_url, "status": 302, "ctor_headers": ctor_headers}
+    for n in (257, 2000, 70000):
+        for ch in ("\r", "\n", "\x00", " ", "é"):
+            for i in (0, 1, n // 2, n - 1):
+                t = "/" + "a" * i + ch + "b" * (n - i - 1)
+                yield {"target": t, "as_url": False, "status": 307}
+                yield {"target": t, "as_url": n < 70000, "status": 307, "ctor_headers": hdr}
+
+
 def oracle_atheris(case) -> Result:
     """Replay / triage oracle for inputs found by the Atheris campaign: decode the bytes like the fuzz target does."""
     from fuzz import targets
@@ -380,6 +806,14 @@ def run(rec, only=None):
     quick = rec.tier == "quick"
     core.drive_cases(rec, "exh", exh_cases(), oracle)
     rec.exhaustive["exh"] = True
+    core.drive_cases(rec, "paths", paths_cases(), oracle)
+    core.drive_cases(rec, "special", special_cases(), oracle)
+    core.drive_cases(rec, "long", long_cases(quick), oracle, sample=False)
+    core.drive_cases(rec, "kinds", kinds_cases(), oracle)
+    core.drive_cases(rec, "cookiex", cookiex_cases(), oracle)
+    core.drive_cases(rec, "redirect_exh", redirect_exh_cases(quick), oracle_redirect, sample=False)
+    for sub in ("paths", "special", "long", "kinds", "cookiex", "redirect_exh"):
+        rec.exhaustive[sub] = True  # the listed grid is enumerated completely
     core.drive_hypothesis(rec, "history", history_case(), oracle, 1500 if quick else 30000)
     core.drive_hypothesis(rec, "redirect", redirect_case(), oracle_redirect, 1500 if quick else 30000, seed_offset=2)
     rec.exhaustive["history"] = rec.exhaustive["redirect"] = False
